@@ -29,6 +29,14 @@ with Views() as v:
                 continue
             types[k] = [[f["name"], f["off"], f["ty"]] for f in t["fields"]]
     json.dump(types, open(os.path.join(V, "sa", "lhsa", "known_types.json"), "w"), indent=0, sort_keys=True)
+    # enumerations of the project's own sources, in declaration order
+    ens = []
+    for et in json.load(open(js)).get("enum_types", []):
+        f = et.get("file", "")
+        if f.startswith("/usr") or not et.get("elems"):
+            continue
+        ens.append({"name": et.get("name", ""), "file": os.path.basename(f), "elems": et["elems"]})
+    json.dump(ens, open(os.path.join(V, "sa", "lhsa", "known_enums.json"), "w"), indent=0)
 names = sorted({re.sub(r"\.\d+$", "", l.split()[-1]) for l in out.splitlines() if len(l.split()) >= 2 and l.split()[-2] in ("T", "t")})
 open(os.path.join(V, "sa", "lhsa", "known_functions.txt"), "w").write("\n".join(names) + "\n")
 print(len(names), "functions")
